@@ -20,7 +20,13 @@ use crate::core::Tier;
 
 pub fn cases_stub(prop: &str) -> String {
     match prop {
-        "C02" | "C03" => "iteration order of the two randomly seeded hash maps of the Huffman builders (H1 rehash, H2 permute_ties): chosen by the simulator; nothing else".into(),
+        "C02" | "C03" => "iteration order of the two randomly seeded hash maps of the Huffman builders (H1 rehash, H2 permute_ties): chosen by the simulator; the size hints of the source iterator of collect(); nothing else".into(),
+        "C08" => "the disk under persist+restart (SimDisk: short / interrupted reads and writes, buffering, sync, crash); the caller-supplied source iterators of extend/collect (size hints, early end, panic after j values)".into(),
+        "C09" => "the prefetch position estimates at the sink (H3 buggify: 8 perturbation kinds); the crate's prefetch feature (second build)".into(),
+        "C11" => "the byte transport (SimDisk: short / interrupted / failed reads and writes, BufWriter/BufReader knobs, sync, crash with or without a torn tail, early EOF)".into(),
+        "C12" => "nothing is stubbed; the simulator chooses the call history and how the container came to be (built, reloaded, clone, clone_from)".into(),
+        "C13" => "the caller-supplied source iterators of extend/collect (size hints, early end, panic after j values)".into(),
+        "C18" => "the thread scheduler: shuttle (seeded random / PCT) switching at the H4 points and between queries; the Miri interpreter's seeded scheduler (pre-emption at any basic block) for the qmiri scenarios".into(),
         _ => String::new(),
     }
 }
@@ -31,6 +37,18 @@ pub fn cases_assumptions(prop: &str) -> Vec<String> {
             "the order in which the builder enumerates the frequency map and the code-length map is the only nondeterminism of construction (the determinism self-check would expose another source)".into(),
             "every permutation of the enumeration order is considered reachable, as the property text quantifies over every order; a real hasher reaches all of them only for small alphabets".into(),
             "sampling, not enumeration, except for alphabets of at most 6 symbols where all orders of the code-length map (and for at most 4 symbols of both maps) are enumerated".into(),
+        ],
+        "C08" => vec![
+            "arguments stay inside the documented preconditions; after a failed extend the vector may hold any prefix of the values its source yielded before failing".into(),
+            "a source iterator that reports its end is finished: values it would yield if polled again are not part of the sequence".into(),
+        ],
+        "C09" => vec!["prefetch_read_NTA is the only sink of the position estimates (checked by reading the code)".into()],
+        "C11" => vec!["obligations (success, ==, identical bytes, identical answers) are owed when only retryable faults fired and the write was acknowledged; hard errors and crashes before sync are informational".into()],
+        "C12" => vec!["the elements an iterator must yield are those of the input sequence".into()],
+        "C13" => vec!["after a failed extend the builder may hold any prefix of the values its source yielded before failing; a source that reports its end is finished".into()],
+        "C18" => vec![
+            "shuttle switches threads only at the H4 points and between queries; races inside code without such a point are left to the Miri scenarios".into(),
+            "a stall of the shuttle phase (a blocking primitive shuttle does not model) is reported as a note, not as a verdict".into(),
         ],
         _ => vec![],
     }
@@ -97,12 +115,13 @@ fn extra_engines(prop: &str, tier: Tier, seed: u64, planned: u64, first: &std::c
         // (mode, scenarios, interpreter seeds per scenario, pre-emption rates, also without the prefetch feature)
         // c18all: one tiny value of every structure family per execution, so a data race anywhere is in reach
         // c18big: rank/select structures large enough for their sampled search paths (3 kinds, by scenario index)
-        ("C18", Tier::Quick) => vec![("c18all", 3, 5, &["0.3"], false), ("c18big", 3, 4, &["0.3"], false), ("c18quad", 2, 4, &["0.3"], false)],
+        ("C18", Tier::Quick) => vec![("c18all", 3, 5, &["0.3"], false), ("c18big", 3, 4, &["0.3"], false), ("c18quad", 2, 4, &["0.3"], false), ("c18many", 2, 3, &["0.3"], false)],
         ("C18", Tier::Thorough) => vec![
             ("c18", 4, 16, &["0.01", "0.1", "0.5"], false),
             ("c18all", 3, 16, &["0.05", "0.5"], false),
             ("c18big", 3, 12, &["0.1", "0.5"], false),
             ("c18quad", 4, 12, &["0.1", "0.5"], false),
+            ("c18many", 5, 8, &["0.1", "0.5"], false),
         ],
         ("C02", Tier::Thorough) => vec![("c02", 4, 32, &["0.01"], false)],
         ("C03", Tier::Thorough) => vec![("c03", 4, 32, &["0.01"], false)],
